@@ -55,7 +55,13 @@ fn serve(
             }
         };
         let pool = inc.store().pool().clone();
-        reply(inc.observe().await);
+        let first = inc.observe().await.map(|mut v| {
+            if let (Some(m), Some(pre)) = (v.as_object_mut(), inc.pre.clone()) {
+                m.insert("pre".into(), pre);
+            }
+            v
+        });
+        reply(first);
         loop {
             // commands arrive over a blocking channel; the runtime's workers keep running meanwhile
             let cmd = match tokio::task::block_in_place(&mut next) {
@@ -65,7 +71,17 @@ fn serve(
             if cmd["act"] == "Crash" {
                 break;
             }
-            let r = inc.exec(&cmd).await;
+            let r = match cmd["act"].as_str() {
+                Some("Drain") => inc.drain_replay().await,
+                Some("FreeRun") => {
+                    let mut emit = |v: Value| reply(Ok(json!({"progress": v})));
+                    match inc.free_run(&cmd["arg"], &mut emit).await {
+                        Ok(()) => Ok(json!({"done": true})),
+                        Err(e) => Err(e),
+                    }
+                }
+                _ => inc.exec(&cmd).await,
+            };
             reply(r);
         }
         // Crash: the incarnation (node, handles, tasks parked at their points) goes away with the
@@ -171,6 +187,40 @@ impl Host {
                 }
                 Ok(v["ok"].clone())
             }
+        }
+    }
+
+    /// Child only: sends a command without waiting for the answer.
+    pub fn send_only(&mut self, cmd: &Value) -> Result<(), String> {
+        match self {
+            Host::Child { stdin, .. } => {
+                let line = serde_json::to_string(cmd).expect("json");
+                stdin
+                    .write_all(line.as_bytes())
+                    .and_then(|_| stdin.write_all(b"\n"))
+                    .and_then(|_| stdin.flush())
+                    .map_err(|e| format!("child stdin: {e}"))
+            }
+            _ => Err("send_only needs a child host".into()),
+        }
+    }
+
+    /// Child only: next line the child wrote (`{"ok": ..}` unwrapped; None at end of output).
+    pub fn read_only(&mut self) -> Result<Option<Value>, String> {
+        match self {
+            Host::Child { stdout, .. } => {
+                let mut buf = String::new();
+                let n = stdout.read_line(&mut buf).map_err(|e| format!("child stdout: {e}"))?;
+                if n == 0 {
+                    return Ok(None);
+                }
+                let v: Value = serde_json::from_str(buf.trim()).map_err(|e| format!("child reply: {e}: {buf}"))?;
+                if let Some(err) = v.get("err").and_then(|e| e.as_str()) {
+                    return Err(err.to_string());
+                }
+                Ok(Some(v["ok"].clone()))
+            }
+            _ => Err("read_only needs a child host".into()),
         }
     }
 
